@@ -345,7 +345,7 @@ def run(ctx):
     except Exception as e:   # noqa
         ctx.bridge('translator: source fingerprints extracted', False, repr(e))
     ctx.prove(['PetlProofs.Props.C02', 'PetlProofs.Props.C02Shape', 'PetlProofs.Snapshot.C02'],
-              REQUIRED + ['Petl.Snapshot.C02_sources_as_validated', 'Petl.C02.pull_shapes_as_expected', 'Petl.C02.bounded_never_scans_ahead', 'Petl.C02.bounded_functions_never_scan_ahead'])
+              REQUIRED + ['Petl.Snapshot.C02_sources_as_validated', 'Petl.C02.pull_shapes_as_expected', 'Petl.C02.pullshape_selftest', 'Petl.C02.bounded_never_scans_ahead', 'Petl.C02.bounded_functions_never_scan_ahead'])
     rng = ctx.rng
     ops = catalog(etl)
     N1, N2 = 1000, 10000
